@@ -45,8 +45,8 @@ CONSTANTS Fams,      \* subset of {"pair", "each", "rand", "long"}
           LongLens,  \* trace lengths of family long
           AllAux     \* TRUE: every (main shape, auxiliary shape) pair of family pair; FALSE: half of them
 
-VARIABLE case
-vars == <<case>>
+VARIABLES case, built      \* the case descriptor and the assertion set built from it
+vars == <<case, built>>
 
 A == INSTANCE Assertions WITH LMax <- 8, Cols <- {0}, TestLens <- {8}, SetLen <- 8, SetWidth <- 1
 
@@ -129,13 +129,9 @@ LongCases ==
   {[fam |-> "long", P |-> 40961, L |-> q[1], n |-> q[2], j |-> q[3]] :
       q \in {r \in LongLens \X {64, 128, 256} \X {1, 2} : r[2] * 2 <= r[1]}}
 
-Init == \/ "pair" \in Fams /\ case \in PairCases
-        \/ "each" \in Fams /\ case \in EachCases
-        \/ "rand" \in Fams /\ case \in RandCases
-        \/ "long" \in Fams /\ case \in LongCases
-Next == UNCHANGED case
-Spec == Init /\ [][Next]_vars
-
+Cases == (IF "pair" \in Fams THEN PairCases ELSE {}) \cup (IF "each" \in Fams THEN EachCases ELSE {})
+         \cup (IF "rand" \in Fams THEN RandCases ELSE {}) \cup (IF "long" \in Fams THEN LongCases ELSE {})
+Next == UNCHANGED vars
 \* extension degree of E for a case
 DegOf(c) == CASE c.fam = "pair" -> 1 + ((c.i + 2 * c.j) % 3)
               [] c.fam = "each" -> 1 + (c.i % 3)
@@ -186,10 +182,13 @@ Build(c) ==
     [] c.fam = "rand" -> BuildRand(c, c.P, c.L, DegOf(c))
     [] c.fam = "long" -> BuildLong(c, c.P, c.L, DegOf(c))
 
+Init == case \in Cases /\ built = Build(case)
+Spec == Init /\ [][Next]_vars
+
 (***************************************************************************)
 (* design-level invariants                                                 *)
 (***************************************************************************)
-Valid == LET b == Build(case) IN
+Valid == LET b == built IN
   /\ Len(b.main) >= 1
   /\ ValidList(b.main, b.mw, case.L)
   /\ ValidList(b.aux, b.aw, case.L)
@@ -197,7 +196,7 @@ Valid == LET b == Build(case) IN
 AllA(b) == b.main \o b.aux
 \* the value polynomial takes the asserted values at the asserted points
 ValueInterp ==
-  LET b == Build(case)  L == case.L  P == case.P  dom == TraceDomain(P, L) IN
+  LET b == built  L == case.L  P == case.P  dom == TraceDomain(P, L) IN
   \A i \in 1..Len(AllA(b)) :
     LET a == AllA(b)[i]
         ss == StepSeq(a, L)
@@ -207,7 +206,7 @@ ValueInterp ==
 \* the documented closed form of the divisor is the product over the asserted points (sampled points
 \* for long step lists)
 DocDivisor ==
-  LET b == Build(case)  L == case.L  P == case.P  dom == TraceDomain(P, L) IN
+  LET b == built  L == case.L  P == case.P  dom == TraceDomain(P, L) IN
   \A i \in 1..Len(AllA(b)) :
     LET a == AllA(b)[i]
         ss == StepSeq(a, L)
@@ -242,7 +241,7 @@ Distinct(s) == \A i \in 1..Len(s) : \A j \in (i + 1)..Len(s) : s[i] # s[j]
 
 Scenario(c) ==
   LET P == c.P  L == c.L  d == DegOf(c)
-      b == Build(c)
+      b == built
       nm == Len(b.main)  na == Len(b.aux)
       st == Stream(590, L + nm + 7 * na + (CASE c.fam = "pair" -> c.i * 31 + c.j [] c.fam = "each" -> c.i [] OTHER -> c.j))
       dom == TraceDomain(P, L)
